@@ -202,10 +202,18 @@ class StreamScenario:
                         self.do(f"srx {k} {data.hex()}")
             elif kind == "rx":
                 n = min(s["rd"], rng.choice([1, 2, 10])); s["rd"] = None
-                self.do(f"srx {k} {bytes(rng.randrange(256) for _ in range(n)).hex()}"); self.count("rx")
+                if rng.random() < 0.04:
+                    self.do(f"srx {k} {bytes(rng.randrange(256) for _ in range(n)).hex()} +ccb"); self.open = False; self.count("cancel-ahead-of-read-completion")
+                else:
+                    self.do(f"srx {k} {bytes(rng.randrange(256) for _ in range(n)).hex()}"); self.count("rx")
             elif kind == "rfault":
                 s["rd"] = None; self.do(f"srdone {k} {rng.choice(['reset', 'eof', 'timed_out', 'fault'])}"); self.count("read-fault")
-            elif kind == "wok": s["wr"] = None; self.do(f"swdone {k} ok")
+            elif kind == "wok":
+                s["wr"] = None
+                if rng.random() < 0.06:
+                    # the socket write has succeeded, but the application cancels the client before the completion handler runs
+                    self.do(f"swdone {k} ok +ccb"); self.open = False; self.count("cancel-ahead-of-write-completion")
+                else: self.do(f"swdone {k} ok")
             elif kind == "wfault":
                 s["wr"] = None; self.do(f"swdone {k} {rng.choice(['reset', 'broken_pipe', 'fault'])}"); self.count("write-fault")
             elif kind == "shutdone": s["shut"] = False; self.do(f"sshutdone {k}")
